@@ -1,7 +1,6 @@
 package server
 
 import (
-	"errors"
 	"io"
 	"net/http"
 	"net/url"
@@ -177,7 +176,8 @@ func HarnessBufferE2E() {
 
 // ---- middleware level ----
 
-var errVAbort = errors.New("abort handler (model of http.ErrAbortHandler)")
+// the value ReverseProxy aborts a handler with when the target dies mid-body (the real net/http sentinel)
+var errVAbort = http.ErrAbortHandler
 
 // vScriptedHandler plays the role of the next handler (the reverse proxy): an arbitrary script of
 // header / informational / status / write / flush / hijack / abort steps.
